@@ -4,11 +4,12 @@
 // API-shaped record (the protojson form of api.Attribute / api.NLRI / api.Capability / api.Path /
 // api.DefinedSet / api.Statement / api.Peer, every number rendered as a decimal string), or the
 // name of an entry of the example catalogue.  The harness
-//   * builds the NATIVE value independently of the converters, with the library's constructors
+//   - builds the NATIVE value independently of the converters, with the library's constructors
 //     (c18_build_test.go, c18_examples_test.go),
-//   * runs the REAL converters in both directions and the serialisers under recover(), and
-//   * records canonical renderings: native before / after (reflective dump), API value (the
+//   - runs the REAL converters in both directions and the serialisers under recover(), and
+//   - records canonical renderings: native before / after (reflective dump), API value (the
 //     API-shaped record again and the deterministic protobuf octets), wire octets, errors, panics.
+//
 // Nothing is asserted here: the trace is judged by TLC (spec/trace/ApiConvTrace.tla).
 package server
 
